@@ -741,8 +741,10 @@ def probe_parse_layout() -> tuple[bool, str]:
     return bool(bad), "; ".join(bad[:3]) or f"{len(variants)} layouts read as the canonical tree"
 
 
-def _contract_group(group, probe=None, probe_ref: str = "props.lexical:probe_parse_scalar"):
-    from contracts import parse_scalar as PS
+def _contract_group(group, probe=None, probe_ref: str = "props.lexical:probe_parse_scalar", ns: str = "parse_scalar"):
+    import importlib
+
+    PS = importlib.import_module(f"contracts.{ns}")
     from verif.common import shape_verdict
     from verif.pyvc.adapter import contract_outcome
 
@@ -754,7 +756,7 @@ def _contract_group(group, probe=None, probe_ref: str = "props.lexical:probe_par
         backends: dict = {}
         for ref in group(ctx):
             c = eval("PS." + ref, {"PS": PS})  # noqa: S307 - refs are built below from constant kind names
-            out = contract_outcome(c, f"contracts.parse_scalar:{ref}")
+            out = contract_outcome(c, f"contracts.{ns}:{ref}")
             total += out.count or 0
             dis += out.discharged or 0
             for k, v in (out.extra or {}).get("by_backend", {}).items():
@@ -817,4 +819,47 @@ def parse_layout_obs(P: str) -> list[Ob]:
         Ob(f"{P}.P.read.multi-line-list", "P", "a list written one item per line (any indentation widths) reads as the items of the one-line list", [pl, pv], make(lambda ctx: [f"list_multiline({a!r}, {b!r})" for a, b in PS.pairs(ctx.thorough)])),
         Ob(f"{P}.P.read.no-end", "P", "an omitted ===END=== (with and without blank lines) reads as the same Document", [pd, ps, pv], make(lambda ctx: [f"document_lenient({k!r}, {v!r})" for k in PS.KINDS for v in ("no-end", "both")])),
         Ob(f"{P}.P.read.optional-quotes", "P", "a plain word reads as the same str whether it arrives as a STRING or as an IDENTIFIER token (parse_value returns the token's value in both cases, every follow context)", [pv], make(lambda ctx: [f"standalone({k!r}, {f!r})" for k in ("STRING", "IDENTIFIER") for f in PS.FOLLOW])),
+    ]
+
+
+def probe_parse_receipts() -> tuple[bool, str]:
+    """concrete stand-in for the parser receipt contracts: multi-word values yield exactly one coalescing receipt at the
+    first word, canonical assignments none, KEY -> v exactly one bare-flow receipt at the operator"""
+    from octave_mcp.core.parser import parse_with_warnings
+
+    bad = []
+
+    def receipts(text):
+        return [w for w in parse_with_warnings(text)[1] if w.get("type") in ("lenient_parse", "spec_violation")]
+
+    for words, col in (("alpha beta", 4), ("alpha beta gamma", 4), ("rel 2", 4), ("12 monkeys", 4)):
+        doc, ws = parse_with_warnings(f"===D===\nK::{words}\n===END===\n")
+        mw = [w for w in ws if w.get("subtype") == "multi_word_coalesce"]
+        if doc.sections[0].value != words or len(mw) != 1 or mw[0].get("result") != words or (mw[0].get("line"), mw[0].get("column")) != (2, col):
+            bad.append(f"K::{words}: value {doc.sections[0].value!r}, coalescing receipts {[(w.get('result'), w.get('line'), w.get('column')) for w in mw]}")
+    for v in ("5", '"a b"', "true", "null", "word", "$v"):
+        r = receipts(f"===D===\nK::{v}\n===END===\n")
+        if r:
+            bad.append(f"canonical K::{v} yields receipts {[w.get('subtype') for w in r]}")
+    for v in ("5", "word", '"s"'):
+        r = [w for w in receipts(f"===D===\nK → {v}\n===END===\n") if w.get("subtype") == "bare_flow"]
+        if len(r) != 1 or (r[0].get("line"), r[0].get("column")) != (2, 3):
+            bad.append(f"K → {v}: bare-flow receipts {[(w.get('line'), w.get('column')) for w in r]}")
+    return bool(bad), "; ".join(bad[:3]) or "multi-word / canonical / bare-flow probes: receipts as specified"
+
+
+def parse_receipt_obs(P: str) -> list[Ob]:
+    """C07 at the parser level (contracts/parse_receipts.py)"""
+    from contracts import parse_receipts as PR
+    from contracts import parse_scalar as PS
+
+    def make(group):
+        return _contract_group(group, probe_parse_receipts, "props.lexical:probe_parse_receipts", ns="parse_receipts")
+
+    ps = "octave_mcp.core.parser:Parser.parse_section"
+    pv = "octave_mcp.core.parser:Parser.parse_value"
+    return [
+        Ob(f"{P}.P.parse.multiword", "P", "multi-word bare value: the value is the words joined by one space and exactly one multi_word_coalesce receipt is appended (result = the value, original = the words, position = the first word)", [ps, pv], make(lambda ctx: [f"multiword({k!r})" for k in PR.MULTIWORD_KINDS])),
+        Ob(f"{P}.P.parse.canonical", "P", "a canonical KEY::<scalar> line appends no receipt (PATTERN / REGEX keys: exactly the documented auto-quote receipt at the key)", [ps, pv], make(lambda ctx: [f"canonical({k!r})" for k in PS.KINDS])),
+        Ob(f"{P}.P.parse.bare-flow", "P", "KEY -> <scalar> reads as the assignment and appends exactly one bare_flow receipt at the operator's line/column", [ps, pv], make(lambda ctx: [f"bare_flow({k!r})" for k in PS.KINDS])),
     ]
